@@ -108,6 +108,55 @@ FSIM_MECH = "C15:decompose_two_qubit_interaction_into_four_fsim_gates:wrong-on-t
 KNOWN_MECHANISMS.add(FSIM_MECH)
 
 
+KAKVEC_EIG_MECH = "C15:kak_vector:LinAlgError(eig-does-not-converge)-when-UB.UB^T-is-a-multiple-of-identity-up-to-rounding-noise"
+KNOWN_MECHANISMS.add(KAKVEC_EIG_MECH)
+
+
+def _kak_vector_eig_explains(u, exc):
+    """Explained-by test for the known kak_vector failure: the vectorised routine hands m = UB.UB^T (UB = Mag^H U Mag) to
+    np.linalg.eig; for a gate at the identity or SWAP vertex m is a multiple of the identity plus rounding noise at mixed scales
+    (1e-18 next to 1e-34) and LAPACK's zgeev reports non-convergence.  True only if (a) the exception is numpy's LinAlgError
+    raised under kak_vector itself, (b) m formed with the harness's own magic basis is a multiple of the identity to 1e-12, and
+    (c) the same call succeeds and agrees with the reference once the matrix entries are rounded to 15 decimals."""
+    import traceback as _tb
+
+    import cirq
+
+    if type(exc) is not np.linalg.LinAlgError or "converge" not in str(exc):
+        return False
+    names = [fr.name for fr in _tb.extract_tb(exc.__traceback__)]
+    if "kak_vector" not in names or "kak_decomposition" in names:
+        return False
+    u = np.asarray(u, dtype=complex)
+    ok_any = False
+    for one in u.reshape(-1, 4, 4):
+        ub = W.MAGIC_H @ one @ W.MAGIC
+        m = ub @ ub.T
+        if np.max(np.abs(m - m[0, 0] * np.eye(4))) > 1e-12:
+            continue
+        try:
+            vec = cirq.kak_vector(np.round(one, 15), check_preconditions=False)
+        except Exception:  # noqa
+            continue
+        if P.same_kak_vector(vec, W.weyl_coordinates(one)):
+            ok_any = True
+    return ok_any
+
+
+def _kak_vector(ctx, u, wit, **kw):
+    """cirq.kak_vector(u, **kw), or None after reporting the failure (under the known mechanism when it is explained)."""
+    import cirq
+
+    try:
+        return cirq.kak_vector(u, **kw)
+    except np.linalg.LinAlgError as e:
+        if not _kak_vector_eig_explains(u, e):
+            raise
+        _emit(ctx, [("no-undocumented-exception", KAKVEC_EIG_MECH, False, "kak_vector raised LinAlgError: %s" % e)], **wit)
+        ctx.event("explained-by:" + KAKVEC_EIG_MECH)
+        return None
+
+
 def _straddles(real_mat, atol):
     """Two numerically equal singular values of mat1 on either side of the rank cut `<= atol`."""
     s = np.linalg.svd(np.asarray(real_mat, dtype=float), compute_uv=False)
@@ -211,7 +260,9 @@ def sec_kak(ctx, rng, case):
     ku = cirq.unitary(k)
     _emit(ctx, [("KakDecomposition:unitary", "C15:KakDecomposition:unitary-differs", L.allclose(ku, u, TOL),
                  "cirq.unitary(KakDecomposition) differs from the decomposed matrix by %.3g" % L.maxdiff(ku, u))], _kak=kk_, **wit)
-    vec = cirq.kak_vector(u, check_preconditions=bool(rng.integers(2)))
+    vec = _kak_vector(ctx, u, wit, check_preconditions=bool(rng.integers(2)))
+    if vec is None:
+        return
     pv = P.post_kak_vector(u, vec)
     _emit(ctx, pv, **wit)
     if pv.inexact:
@@ -226,7 +277,9 @@ def sec_kak(ctx, rng, case):
     if case % 4 == 0:  # batched input, shape (2, 3, 4, 4)
         batch = np.array([[UW.gen_two_qubit(rng, int(rng.integers(10 ** 6)))[0] for _ in range(3)] for _ in range(2)])
         batch[1, 2] = u
-        bv = cirq.kak_vector(batch)
+        bv = _kak_vector(ctx, batch, wit)
+        if bv is None:
+            return
         ok = bv.shape == (2, 3, 3)
         ctx.check(ok, "kak_vector:batch-shape", "C15:kak_vector:batch-shape", "shape %r" % (bv.shape,), **wit)
         if ok:
